@@ -275,6 +275,7 @@ def run(chk):
     ok = chk.build_and_prove()
     # a broken proof / theorem file: enlarge the search for a failing input to the thorough scope
     tt.run_timed(chk, "C17", NAMES, oracle, ncase=None if ok else 2000)
+    tt.closed_world(chk, "C17", NAMES)
     chk.cov["boundary_fates_observed"] = {k[0]: sorted(s) for k, s in BOUNDARY_FATE.items()}
     chk.cov["rule"] = ("per operator: seeded instances (durations / due times 0/5/10/20 ms as float seconds, timedelta "
                        "or absolute datetime incl. one in the past; timeout with and without fallback; scheduler "
